@@ -564,3 +564,21 @@ func GenOtherSettings(r *hx.RNG, i int) []string {
 	out = append(out, fmt.Sprintf("W%s:0:70000", X), fmt.Sprintf("W%s:1:70000", X))
 	return out
 }
+
+// GenBadMaxFrame (C09): SETTINGS_MAX_FRAME_SIZE outside [16384, 2^24-1] (RFC 7540 6.5.2: a
+// connection error PROTOCOL_ERROR), alone, after legal entries, from either endpoint, then DATA
+// from the other endpoint: the session must end at the SETTINGS frame, never spin or mis-split.
+func GenBadMaxFrame(r *hx.RNG, i int) []string {
+	pick := func(xs ...int) int { return xs[r.Intn(len(xs))] }
+	y := i % 2
+	Y, X := sides[y], sides[1-y]
+	v := []int{0, 1, 100, 16383, 16777216, 4294967295}[i%6]
+	var out []string
+	if r.Chance(1, 2) {
+		out = append(out, fmt.Sprintf("H%s:1:0:1:-:-:0:0", Y), fmt.Sprintf("D%s:1:0:-:z%d.1", Y, pick(1, 100)))
+	}
+	pre := []string{"", "3=100,", "5=32768,4=10,", "6=0,"}[r.Intn(4)]
+	out = append(out, fmt.Sprintf("S%s:%s5=%d", X, pre, v), fmt.Sprintf("H%s:3:0:1:1.0.15:-:2:0", Y),
+		fmt.Sprintf("D%s:3:0:-:z%d.2", Y, pick(1, 5, 300)))
+	return out
+}
